@@ -998,6 +998,12 @@ ASSUME_COMMON = [
 
 
 def finish(run, prop, tier, acc, wall):
+    import re as _re
+    for f in acc.fails:
+        m = _re.match(r"KNOWN:([\w-]+): (.*)", f.get("what", ""))
+        if m:
+            f["key"] = m.group(1)
+            f["what"] = m.group(2)
     mine = [f for f in acc.fails if f["prop"] == prop]
     others = sorted({f["prop"] for f in acc.fails if f["prop"] != prop})
     known = [k for k in vlib.known_findings() if k["property"] == prop]
@@ -1104,10 +1110,19 @@ def replay(run, prop, path):
     mine = [f for f in v["fails"] if f[2] == prop]
     for f in v["fails"]:
         print("lens", f[2], "line", f[1], ":", f[3])
-    if mine:
+    import re as _re
+    known = {k["key"]: k for k in vlib.known_findings() if k["property"] == prop}
+    unlisted = []
+    for f in mine:
+        m = _re.match(r"KNOWN:([\w-]+): ", f[3])
+        if m and m.group(1) in known:
+            print(f"KNOWN-FINDING: property={prop} {known[m.group(1)]['text']}")
+        else:
+            unlisted.append(f)
+    if unlisted:
         print(f"VIOLATION property={prop} replay={path}")
         return 1
-    print(f"replay: property {prop} holds on this history now")
+    print(f"replay: property {prop} holds on this history now" + (" (apart from the listed known finding)" if mine else ""))
     return 0
 
 
